@@ -141,6 +141,9 @@ pub struct RefWriter<'a> {
     /// when non-zero: every eligible object goes into an object stream and a stream is closed only when it holds this
     /// many objects (ordinary producers put 100-200 objects into one stream; the default here is 1..8)
     pub pack_limit: usize,
+    /// NOT legal PDF (C07 only): an update section repeats the Size of the revision it updates although it adds
+    /// objects - sloppy producers do this, tolerant readers raise Size to the highest entry + 1
+    pub stale_update_size: bool,
 }
 
 impl RefWriter<'_> {
@@ -162,7 +165,7 @@ fn is_regular(c: u8) -> bool {
 
 impl<'a> RefWriter<'a> {
     pub fn new(ch: &'a mut Choices) -> RefWriter<'a> {
-        RefWriter { ch, out: vec![], base: 0, ghost_objects: false, objstm_lengths_indirect: false, prefer_gap_numbers: false, pack_limit: 0 }
+        RefWriter { ch, out: vec![], base: 0, ghost_objects: false, objstm_lengths_indirect: false, prefer_gap_numbers: false, pack_limit: 0, stale_update_size: false }
     }
     fn pos(&self) -> usize {
         self.out.len() - self.base
@@ -672,6 +675,7 @@ impl<'a> RefWriter<'a> {
         }
         let mut prev_startxref: Option<usize> = None;
         let mut all_nums: BTreeSet<u32> = BTreeSet::new();
+        let mut last_size: u32 = 0;
         for (ri, rev) in h.revisions.iter().enumerate() {
             let mut ents: BTreeMap<u32, Ent> = BTreeMap::new();
             // decide placement: plain vs object stream
@@ -919,7 +923,8 @@ impl<'a> RefWriter<'a> {
             match style {
                 XrefStyle::Table => {
                     startxref = self.pos();
-                    let size = size_hint;
+                    let size = if self.stale_update_size && ri > 0 && last_size > 0 { last_size } else { size_hint };
+                    last_size = size;
                     // entries to list: this revision's objects; base revision also lists object 0
                     // and free entries for unused numbers below Size
                     let mut listed: BTreeMap<u32, Option<(usize, u16)>> = BTreeMap::new(); // None = free
@@ -1005,6 +1010,8 @@ impl<'a> RefWriter<'a> {
                     all_nums.insert(xid);
                     // (the stream's own number may come from a gap, so it is not necessarily the highest)
                     let size = all_nums.iter().max().map(|m| m + 1).unwrap_or(1).max(size_hint);
+                    let size = if self.stale_update_size && ri > 0 && last_size > 0 { last_size } else { size };
+                    last_size = size;
                     let mut listed: BTreeMap<u32, Option<Ent>> = BTreeMap::new();
                     for (n, e) in &ents {
                         listed.insert(*n, Some(e.clone()));
